@@ -609,7 +609,8 @@ class _SetOperation(Selectable, Term):  # type:ignore[misc]
             quote_char=self.base_query.QUERY_CLS.SQL_CONTEXT.quote_char,
             parameterizer=ctx.parameterizer,
         )
-        set_ctx = ctx.copy(subquery=self.base_query.wrap_set_operation_queries)
+        # operands never carry an alias inside the compound, whatever the surrounding context asks for
+        set_ctx = ctx.copy(subquery=self.base_query.wrap_set_operation_queries, with_alias=False)
         base_querystring = self.base_query.get_sql(set_ctx)
 
         querystring = base_querystring
